@@ -575,6 +575,10 @@ func c16R5(p *core.Prog, r *core.Report) {
 			}
 			n++
 			label := lab.next("platform.Parse result")
+			if res == nil {
+				r.Held(rule, p.FuncName(fn), label, p.Pos(call.Pos()), "the result is discarded explicitly: the call only validates the string")
+				continue
+			}
 			used := false
 			if res != nil {
 				used = forwardFlow(p, res, func(cc ssa.CallInstruction, i int) bool {
